@@ -111,10 +111,49 @@ def run(ctx) -> None:
     if isinstance(e, ast.Call) and isinstance(e.func, ast.Attribute) and e.func.attr == 'is_integer':
       return v in flow.names_in(e.func.value)
     return False
-  guard = [n for n in g.nodes if n.kind == 'test' and _exact_integral_test(n.ast)]
-  okd = default_float and bool(int_assign) and bool(guard) and guard[0].id in g.dominators()[int_assign[0].id] and \
-      int_assign[0] in g.reachable([m for m, lab in guard[0].succs if lab == 'T'], include_starts=True) and \
-      int_assign[0] not in g.reachable([m for m, lab in guard[0].succs if lab == 'F'], include_starts=True)
+  # every path to the call that passes external_type=...: the value is INTEGER only if a test that all feasible values
+  # are integral was taken on its true side, and FLOAT otherwise
+  from vzstatic import pathcond as _pc
+  users = [(n, k.value) for n in g.nodes for c in flow.node_calls(n) for k in c.keywords if k.arg == 'external_type']
+  if not users:
+    raise AnalysisError('add_discrete_param: no call passing external_type= found')
+  okd = True
+  n_paths = 0
+  for un, val in users:
+    start = [g.entry]
+    if un.loops:
+      # the call sits in a loop over the names to create: paths are taken up to the loop header
+      hdr = next((m for m in g.nodes if m.kind in ('for', 'while') and m.ast is un.loops[0]), None)
+      target = hdr if hdr is not None else un
+    else:
+      target = un
+    # start at the lowest node that dominates the target and every definition the value can come from: the
+    # branches before it do not matter for the value
+    rd_ = flow.ReachingDefs(g)
+    dom_ = g.dominators()
+    defs_ = [g.nodes[d.node_id] for nm in flow.names_in(val) for d in rd_.at(target, nm) if d.node_id >= 0]
+    cands_ = [m for m in g.nodes if m.id in dom_[target.id] and all(m.id in dom_[d.id] for d in defs_) and m is not target]
+    if cands_:
+      low = max(cands_, key=lambda m: len(dom_[m.id]))
+      start = [low]
+    for path in _pc.paths(g, start, target, limit=6000):
+      n_paths += 1
+      v = _pc.substitute_on_path(path, val)
+      d = dotted(v) or ''
+      if d.endswith('ExternalType.FLOAT'):
+        continue
+      if not d.endswith('ExternalType.INTEGER'):
+        if isinstance(v, ast.Name) and v.id in ad.params:
+          continue
+        raise AnalysisError(f'add_discrete_param: external type `{unparse(v, 50)}` on a path is neither INTEGER nor FLOAT')
+      guarded = False
+      for t, pol in _pc.conditions(path):
+        conj = t.values if isinstance(t, ast.BoolOp) and isinstance(t.op, ast.And) else [t]
+        if pol and any(_exact_integral_test(c_) for c_ in conj):
+          guarded = True
+      if not guarded:
+        okd = False
+  ctx.count('discrete_external_type_paths', n_paths)
   ctx.check(okd, 'R2', 'add_discrete_param: INTEGER only if all values integral, else FLOAT', ad.node,
             'INTEGER assigned only on the true branch of all(v == round(v))',
             'discrete parameters are declared INTEGER without the all-integral test (non-integral values would be truncated) '
@@ -202,19 +241,43 @@ def run(ctx) -> None:
     if isinstance(n, ast.Assign) and isinstance(n.targets[0], ast.Tuple) and len(n.targets[0].elts) == 2 \
         and isinstance(n.value, ast.Name) and n.value.id in res_names and isinstance(n.targets[0].elts[1], ast.Name):
       idx_names.add(n.targets[0].elts[1].id)
-  appended_pair = any(isinstance(c, ast.Call) and isinstance(c.func, ast.Attribute) and c.func.attr == 'append'
-                      and c.args and isinstance(c.args[0], ast.Tuple) and len(c.args[0].elts) == 2
-                      and isinstance(c.args[0].elts[0], ast.Name) and c.args[0].elts[0].id in idx_names for c in ast.walk(pp.node))
+  # the element stored per indexed name: a tuple or a NamedTuple record holding the integer index at a known slot
+  from vzstatic import inline as _inline
+  records = _inline._record_classes(pp.module.tree)
+  slot = None  # (position, field name or None)
+  for c in ast.walk(pp.node):
+    if not (isinstance(c, ast.Call) and isinstance(c.func, ast.Attribute) and c.func.attr == 'append' and c.args):
+      continue
+    v = c.args[0]
+    if isinstance(v, ast.Tuple) and len(v.elts) == 2:
+      for i_, e_ in enumerate(v.elts):
+        if isinstance(e_, ast.Name) and e_.id in idx_names:
+          slot = (i_, None)
+    elif isinstance(v, ast.Call) and (dotted(v.func) or '') in records and len(records[dotted(v.func)]) == 2:
+      fields = [f_ for f_, _ in records[dotted(v.func)]]
+      for i_, e_ in enumerate(v.args):
+        if isinstance(e_, ast.Name) and e_.id in idx_names:
+          slot = (i_, fields[i_])
+      for k_ in v.keywords:
+        if isinstance(k_.value, ast.Name) and k_.value.id in idx_names and k_.arg in fields:
+          slot = (fields.index(k_.arg), k_.arg)
+  appended_pair = slot is not None
 
-  def first_elem_key(k: ast.AST) -> bool:
-    return isinstance(k, ast.Lambda) and len(k.args.args) == 1 and unparse(k.body, 0) == f'{k.args.args[0].arg}[0]' or \
-        (dotted(k) or '') in ('operator.itemgetter(0)',) or (isinstance(k, ast.Call) and unparse(k, 0) == 'operator.itemgetter(0)')
+  def index_key(k: ast.AST) -> bool:
+    if slot is None:
+      return False
+    pos, fld = slot
+    if isinstance(k, ast.Lambda) and len(k.args.args) == 1:
+      a_ = k.args.args[0].arg
+      return unparse(k.body, 0) == f'{a_}[{pos}]' or (fld is not None and unparse(k.body, 0) == f'{a_}.{fld}')
+    t_ = unparse(k, 0)
+    return t_ == f'operator.itemgetter({pos})' or (fld is not None and t_ == f"operator.attrgetter('{fld}')")
   sort_ok = False
   for c in ast.walk(pp.node):
     if isinstance(c, ast.Call) and ((isinstance(c.func, ast.Attribute) and c.func.attr == 'sort') or dotted(c.func) == 'sorted'):
       keys = [k.value for k in c.keywords if k.arg == 'key']
       rev = any(k.arg == 'reverse' and not (isinstance(k.value, ast.Constant) and k.value.value is False) for k in c.keywords)
-      if not rev and (not keys or first_elem_key(keys[0])):
+      if not rev and ((not keys and slot is not None and slot[0] == 0) or (keys and index_key(keys[0]))):
         sort_ok = True
   ctx.check(uses_parser, 'R5', 'indexed names grouped by parse_multi_dimensional_parameter_name', pp.node, 'parser used',
             'indexed parameters are not grouped by the name parser', construct='parser', func=pp.qualname)
